@@ -2175,6 +2175,166 @@ theorem wrapper_reserve_mask_exact (cs : List Cache) (b : List Tok) (hinv : ∀ 
   intro c hc t
   exact reserve_mask_exact c b (hinv c hc) (hn c hc) t
 
+/-! ### refinement at full strength for the repaired tree: no operation is excluded -/
+
+/-- the cache accepted the operation -/
+def accepted (c : Cache) : HOp → Bool
+  | .fwd b _ => decide ((startForward c b).2 = .ok)
+  | .rm seq b e => decide ((removeV c seq b e).2 = .ok)
+  | _ => true
+
+/-- the location-free meaning of one cache operation, given whether the cache accepted it: a rejected batch
+    costs only the window eviction the pass had already performed, a refused `Remove` is a no-op -/
+def specStepT (W : Option Int) (s : Spec) (op : HOp) (acc : Bool) : Spec :=
+  match op with
+  | .fwd b ids =>
+    let s1 := match W with | none => s | some w => specSlide s w b
+    if acc then KV.store s1 (b.zip ids) else s1
+  | .cp src dst len => KV.copyPrefix s src dst len
+  | .rm seq b e => if acc then (KV.remove s seq b e).getD s else s
+  | .sc _ => s
+  | .rsv _ => s
+
+/-- a forward pass supplies one datum per token -/
+def WellFormed : HOp → Prop
+  | .fwd b ids => ids.length = b.length
+  | _ => True
+
+/-- a pass that does not accept its batch (full, or the pinned divide-by-zero) leaves the abstract state
+    = before minus the window eviction -/
+theorem startForward_not_ok_abs (c : Cache) (b : List Tok) (h : Inv c) (hfix : c.v.fixDefrag = true)
+    (hr : RowsFresh c) (hno : (startForward c b).2 ≠ .ok) :
+    (abs (startForward c b).1).Perm (evictedSpec c b) := by
+  cases hres : (startForward c b).2 with
+  | ok => exact absurd hres hno
+  | full => exact rejected_forward_abs c b h hfix hr hres
+  | panic =>
+    have hsl : abs (slide { c with curBatch := b, except := [] } b) = evictedSpec c b :=
+      slide_abs { c with curBatch := b, except := [] } b ⟨h.len, h.cover, h.rmax, h.pad, h.size⟩
+    rw [← hsl]
+    unfold startForward at hres ⊢
+    simp only at hres ⊢
+    split
+    · rename_i hf; simp [hf] at hres
+    · split
+      · exact List.Perm.refl _
+      · rename_i hf1 hp
+        simp only [hf1, hp] at hres
+        cases hf2 : findStart (defrag (slide { c with curBatch := b, except := [] } b)).cells b.length <;>
+          simp [hf2] at hres
+
+/-- **Refinement, one step, every outcome** (repaired defrag and repaired `Remove`): whatever the cache
+    answers — batch accepted or rejected, removal carried out or refused — the abstract state changes exactly
+    as `specStepT` prescribes for that answer. -/
+theorem refines_step_total (c : Cache) (op : HOp) (h : Inv c) (hfix : c.v.fixDefrag = true)
+    (hat : c.v.atomicRemove = true) (hr : RowsFresh c) (hfe : FreshEmpty c) (hwf : WellFormed op) :
+    (abs (stepH c op)).Perm (specStepT c.window (abs c) op (accepted c op)) := by
+  cases op with
+  | fwd b ids =>
+    by_cases hok : (startForward c b).2 = .ok
+    · obtain ⟨s', hs', hp⟩ := refines_step c (.fwd b ids) h hfix hr hfe ⟨hok, hwf⟩
+      simp only [specStep, Option.some.injEq] at hs'
+      subst hs'
+      cases hW : c.window <;> simpa [specStepT, accepted, hok, hW] using hp
+    · have := startForward_not_ok_abs c b h hfix hr hok
+      cases hW : c.window <;> simpa [specStepT, accepted, hok, stepH, evictedSpec, hW] using this
+  | cp src dst len =>
+    obtain ⟨s', hs', hp⟩ := refines_step c (.cp src dst len) h hfix hr hfe trivial
+    simp only [specStep, Option.some.injEq] at hs'
+    subst hs'
+    simpa [specStepT] using hp
+  | rm seq b e =>
+    by_cases hok : (removeV c seq b e).2 = .ok
+    · obtain ⟨s', hs', hp⟩ := refines_step c (.rm seq b e) h hfix hr hfe hok
+      simp only [specStep] at hs'
+      simpa [specStepT, accepted, hok, hs'] using hp
+    · have := removeV_error_unchanged c seq b e hat hok
+      simp only [specStepT, accepted, hok, decide_false, Bool.false_eq_true, if_false, stepH, this]
+      exact List.Perm.refl _
+  | sc ex =>
+    obtain ⟨s', hs', hp⟩ := refines_step c (.sc ex) h hfix hr hfe trivial
+    simp only [specStep, Option.some.injEq] at hs'
+    subst hs'
+    simpa [specStepT] using hp
+  | rsv b => exact List.Perm.refl _
+
+theorem specStepT_perm (W : Option Int) (s s' : Spec) (op : HOp) (acc : Bool) (hp : s.Perm s') :
+    (specStepT W s op acc).Perm (specStepT W s' op acc) := by
+  cases op with
+  | fwd b ids =>
+    have h1 : (match W with | none => s | some w => specSlide s w b).Perm
+        (match W with | none => s' | some w => specSlide s' w b) := by
+      cases W with
+      | none => exact hp
+      | some w => exact specSlide_perm w b s s' hp
+    simp only [specStepT]
+    split
+    · simp only [KV.store]; exact List.Perm.append_right _ h1
+    · exact h1
+  | cp src dst len => exact hp.filterMap _
+  | rm seq b e =>
+    simp only [specStepT]
+    split
+    · simp only [KV.remove]
+      rw [← hp.any_eq]
+      split
+      · exact hp
+      · exact hp.filterMap _
+    · exact hp
+  | sc ex => exact hp
+  | rsv b => exact hp
+
+/-- the specification run next to the cache (it is told each answer of the cache) -/
+def runT (W : Option Int) : Cache → Spec → List HOp → Spec
+  | _, s, [] => s
+  | c, s, op :: ops => runT W (stepH c op) (specStepT W s op (accepted c op)) ops
+
+/-- **Refinement along EVERY history** (repaired tree): no guard on the operations — rejected batches and
+    refused removals included. -/
+theorem refines_run_total (c : Cache) (ops : List HOp) (s : Spec) (hp : (abs c).Perm s) (h : Inv c)
+    (hfix : c.v.fixDefrag = true) (hat : c.v.atomicRemove = true) (hr : RowsFresh c) (hfe : FreshEmpty c)
+    (hwf : ∀ op ∈ ops, WellFormed op) :
+    (abs (ops.foldl stepH c)).Perm (runT c.window c s ops) := by
+  induction ops generalizing c s with
+  | nil => exact hp
+  | cons op rest ih =>
+    have h1 := refines_step_total c op h hfix hat hr hfe (hwf op (by simp))
+    have h2 := specStepT_perm c.window (abs c) s op (accepted c op) hp
+    have hinv : Inv (stepH c op) := inv_run c [op] h
+    have hv := stepH_v c op
+    have := ih (stepH c op) (specStepT c.window s op (accepted c op)) (h1.trans h2) hinv
+      (by rw [hv]; exact hfix) (by rw [hv]; exact hat) (stepH_rowsFresh c op hr) (stepH_freshEmpty c op hfe)
+      (fun o ho => hwf o (by simp [ho]))
+    rw [stepH_window] at this
+    simpa [runT] using this
+
+/-- **THE PROPERTY for the repaired tree, no guard**: from any configuration, after ANY history (accepted
+    and rejected batches, accepted and refused removals, prefix copies, SetCausal, reserve passes), every token
+    of the next accepted batch is shown exactly the entries the location-free specification holds for that
+    history plus the batch, filtered by sequence, position ≤ own, window. -/
+theorem history_exposes_spec_total (v : Variant) (hv : v.fixDefrag = true) (hat : v.atomicRemove = true) (w : Option Int)
+    (maxSeq capacity maxBatch cachePad batchPad : Nat) (hs : Bool) (ops : List HOp) (b : List Tok) (ids : List Nat)
+    (hsz : (Causal.init v w maxSeq capacity maxBatch cachePad batchPad hs).cells.length ≤ maxInt)
+    (hids : ids.length = b.length) (hwf : ∀ op ∈ ops, WellFormed op) :
+    let c0 := Causal.init v w maxSeq capacity maxBatch cachePad batchPad hs
+    let c := ops.foldl stepH c0
+    (startForward c b).2 = .ok →
+    ∀ t ∈ b, ((exposedEntries (put (startForward c b).1 ids) t).map key).Perm
+      ((visible w (KV.store (runT w c0 [] ops) (b.zip ids)) t.seq t.pos).map key) := by
+  intro c0 c hok t ht
+  have hperm := refines_run_total c0 ops [] (by rw [abs_init]) (inv_init v w maxSeq capacity maxBatch cachePad batchPad hs hsz)
+    hv hat (rowsFresh_init v w maxSeq capacity maxBatch cachePad batchPad hs)
+    (freshEmpty_init v w maxSeq capacity maxBatch cachePad batchPad hs) hwf
+  have h1 := forward_exposes_all_histories v hv w maxSeq capacity maxBatch cachePad batchPad hs ops b ids hsz hids hok t ht
+  have hw : c.window = w := (run_window _ ops).trans rfl
+  have hw0 : c0.window = w := rfl
+  rw [hw0] at hperm
+  refine h1.trans ?_
+  rw [hw]
+  have hst : (KV.store (abs c) (b.zip ids)).Perm (KV.store (runT w c0 [] ops) (b.zip ids)) := by
+    simp only [KV.store]; exact List.Perm.append_right _ hperm
+  exact ((hst.filter _).map key)
+
 /-! ### `CanResume` (repaired, F15b) is sound: an approved position has its whole window present -/
 
 theorem nodup_range_length (n : Nat) (lo : Int) (L : List Int) (hnd : L.Nodup)
@@ -2493,5 +2653,21 @@ example :
     abs (Causal.remove (f28 {}) 0 1 2).1 ≠ abs (f28 {}) ∧
     (abs (Causal.remove (Causal.remove (f28 {}) 0 1 2).1 0 0 maxInt32).1).map (fun e => (e.seqs, e.pos, e.id))
       = [([1], 0, 10), ([1], 1, 11), ([1], 2, 12), ([1], 3, 13)] := by decide
+
+/-- the cache's answers along a history -/
+def acceptTrace : Cache → List HOp → List Bool
+  | _, [] => []
+  | c, op :: ops => accepted c op :: acceptTrace (stepH c op) ops
+
+/-- non-vacuity of the total refinement (audited): on the repaired tree a history with a rejected batch
+    (5 cells, 6th token) and a refused `Remove` (cells shared after a fork) is covered — the specification's
+    run, told the cache's answers, holds the 5 entries the cache holds -/
+theorem refines_total_nonvacuous :
+    let c0 := Causal.init { fixDefrag := true, atomicRemove := true } none 1 5 5 1 1 true
+    let ops := [HOp.fwd [⟨0, 0⟩, ⟨0, 1⟩, ⟨0, 2⟩, ⟨0, 3⟩, ⟨0, 4⟩] [1, 2, 3, 4, 5], .fwd [⟨0, 5⟩] [6], .cp 0 1 5,
+      .rm 0 1 2, .rsv [⟨0, 5⟩], .rm 1 0 maxInt32, .rm 0 1 2]
+    acceptTrace c0 ops = [true, false, true, false, true, true, true] ∧
+    (runT none c0 [] ops).map key = [(0, 1, 0), (1, 3, -1), (2, 4, -1), (3, 5, -1)] ∧
+    (abs (ops.foldl stepH c0)).map key = [(0, 1, 0), (1, 3, -1), (2, 4, -1), (3, 5, -1)] := by decide
 
 end OllamaVerif.C06
